@@ -474,6 +474,11 @@ def check_object(case, ctx):
     obj = build.make(d)
     norm = d["normalize"]
     st_ = {"ledger": [], "norm": norm, "others": []}
+    if d["kind"] == "surface" and d["dim"] == 3 and len(d["P"]) % 3 == 1:
+        # the trim-aware tessellation component; without trims it produces the mesh of the default component, which the freshly
+        # built objects use
+        obj.tessellator = tessellate.TrimTessellate()
+        ctx.label("trim-tessellator")
     for v in case["first_views"]:
         read_view(obj, v)
     read_before = set(case["first_views"])
@@ -554,8 +559,10 @@ def check_container(case, ctx):
     kind = case["shapes"][0]["kind"]
     cls = {"curve": multi.CurveContainer, "surface": multi.SurfaceContainer, "volume": multi.VolumeContainer}[kind]
     pool = [build.make(d) for d in case["shapes"]]
-    cont = build.container(cls, pool[:case["start"]], len(case["shapes"][0]["P"]))          # filled in one of the documented ways
+    cont = build.container(cls, pool[:case["start"]], sum(len(d_["P"]) for d_ in case["shapes"]) + case["start"])          # filled in one of the documented ways
     nxt = case["start"]
+    ctx.check(len(cont) == nxt, "container-members",
+              "a container filled with %d shapes holds %d elements" % (nxt, len(cont)))
     cont.delta = 0.25
     model = [0.25] * cont.pdimension          # the densities the caller asked for, direction by direction
     # model of the recorded finding: a cached container view read before an element was edited behind its back
